@@ -133,6 +133,11 @@ type c20Run struct {
 	seen       map[string]bool
 	opIdx      int
 	panicked   bool
+	// labelling only (input class of a shrink-on-ack report): mirror of the Cubic epoch start
+	cubicEpoch monotime.Time
+	epochLbl   protocol.PacketNumber
+	noPace     bool // skip the pacing clause (shrinking another signature)
+	work       int
 }
 
 const c20MaxPkts = protocol.MaxCongestionWindowPackets
@@ -151,7 +156,7 @@ func c20NewRun(cfg c20Cfg) *c20Run {
 		r.s = newCubicSender(r.clk, r.rtt, &utils.ConnectionStats{}, !cfg.Cubic, r.mds,
 			protocol.ByteCount(cfg.InitPkts)*r.mds, c20MaxPkts*r.mds, nil)
 	}
-	r.lsent, r.lack, r.epoch = protocol.InvalidPacketNumber, protocol.InvalidPacketNumber, protocol.InvalidPacketNumber
+	r.lsent, r.lack, r.epoch, r.epochLbl = protocol.InvalidPacketNumber, protocol.InvalidPacketNumber, protocol.InvalidPacketNumber, protocol.InvalidPacketNumber
 	r.next = 1
 	r.st.minCwndPk, r.st.maxCwndPk = math.MaxInt64, 0
 	r.wasSS = r.s.InSlowStart()
@@ -233,9 +238,32 @@ func (r *c20Run) call(kind int, pn protocol.PacketNumber, prior protocol.ByteCou
 			r.st.appLtdAcks++
 		}
 	}
+	ssBefore := r.s.InSlowStart()
+	epochBefore := r.cubicEpoch
 	f()
 	after := r.s.GetCongestionWindow()
 	name := c20KindName[kind]
+	// mirror of the Cubic epoch, used only to label reports
+	switch kind {
+	case c20Acked:
+		if !r.s.InRecovery() {
+			if !limited {
+				r.cubicEpoch = 0
+			} else if before < c20MaxPkts*r.mds && !ssBefore && r.cubicEpoch.IsZero() {
+				r.cubicEpoch = r.clk.now
+			}
+		}
+	case c20Loss:
+		if pn > r.epochLbl {
+			r.epochLbl = r.lsent
+			r.cubicEpoch = 0
+		}
+	case c20RTO:
+		r.epochLbl = protocol.InvalidPacketNumber
+		if rtoRetx {
+			r.cubicEpoch = 0
+		}
+	}
 	if after < before {
 		switch kind {
 		case c20Loss:
@@ -249,7 +277,11 @@ func (r *c20Run) call(kind int, pn protocol.PacketNumber, prior protocol.ByteCou
 				r.fail(r.sig("shrink-without-loss", name), "OnRetransmissionTimeout(false): cwnd %d -> %d", before, after)
 			}
 		case c20Acked:
-			r.fail(r.sig("shrink-on-ack"), "OnPacketAcked(pn=%d, prior=%d): cwnd %d -> %d", pn, prior, before, after)
+			if age := r.clk.now.Sub(epochBefore); r.cfg.Cubic && !epochBefore.IsZero() && age > 25*time.Second {
+				r.fail(r.sig("shrink-on-ack", "cubic-epoch-older-than-25s"), "OnPacketAcked(pn=%d, prior=%d, t=epoch+%s): cwnd %d -> %d", pn, prior, age, before, after)
+			} else {
+				r.fail(r.sig("shrink-on-ack"), "OnPacketAcked(pn=%d, prior=%d): cwnd %d -> %d", pn, prior, before, after)
+			}
 		default:
 			r.fail(r.sig("shrink-without-loss", name), "%s: cwnd %d -> %d", name, before, after)
 		}
@@ -295,9 +327,14 @@ func (r *c20Run) sendPkt(size protocol.ByteCount, retx, authorised bool) {
 		r.infl += size
 		r.out = append(r.out, c20Pkt{pn: pn, size: size, sent: r.clk.now})
 	}
+	// every send materialises pacer tokens with the bandwidth estimate then in force; only
+	// authorised sends count towards the bytes of an interval
 	if authorised {
 		r.pace = append(r.pace, c20Pace{t: r.clk.now, bytes: size, bw: r.bwBytes(), mds: r.mds})
+	} else {
+		r.pace = append(r.pace, c20Pace{t: r.clk.now, bytes: 0, bw: r.bwBytes(), mds: r.mds})
 	}
+	r.work++
 	r.call(c20Sent, pn, 0, 0, false, func() { r.s.OnPacketSent(r.clk.now, r.infl, pn, size, retx) })
 	if retx {
 		r.lsent = pn
@@ -536,6 +573,9 @@ func (r *c20Run) exec(ops []c20Op) {
 
 // checkPacing evaluates the pacing clause over every pair of authorised sends.
 func (r *c20Run) checkPacing() {
+	if r.noPace {
+		return
+	}
 	if v := c20PairCheck(r.pace, &r.st.pairs); v != "" {
 		r.fail(r.sig("pacer-exceeds-burst-plus-rate"), "%s", v)
 	}
@@ -546,14 +586,27 @@ func c20Burst(bw float64, mds protocol.ByteCount) float64 {
 }
 
 func c20PairCheck(p []c20Pace, pairs *int64) string {
+	// Every pair (i, j) for traces of up to c20PairWindow sends; for longer traces every pair at
+	// distance <= c20PairWindow, and all j for every 64th i.
+	const c20PairWindow = 2000
 	for i := range p {
+		if p[i].bytes == 0 {
+			continue // not an authorised send (bandwidth sample only)
+		}
 		var sum protocol.ByteCount
 		bw := 0.0
 		var mds protocol.ByteCount
-		for j := i; j < len(p); j++ {
+		end := len(p)
+		if len(p) > c20PairWindow && i%64 != 0 {
+			end = min(len(p), i+c20PairWindow)
+		}
+		for j := i; j < end; j++ {
 			sum += p[j].bytes
 			bw = math.Max(bw, p[j].bw)
 			mds = max(mds, p[j].mds)
+			if p[j].bytes == 0 {
+				continue
+			}
 			dt := p[j].t.Sub(p[i].t).Seconds()
 			if dt < 0 {
 				dt = 0
@@ -563,7 +616,7 @@ func c20PairCheck(p []c20Pace, pairs *int64) string {
 				return fmt.Sprintf("authorised sends %d..%d: %d bytes in %.9fs, allowed burst %.0f + 1.25 x %.0f B/s x dt + %d = %.0f", i, j, sum, dt, c20Burst(bw, mds), bw, mds, allowed)
 			}
 		}
-		*pairs += int64(len(p) - i)
+		*pairs += int64(end - i)
 	}
 	return ""
 }
@@ -734,11 +787,24 @@ func c20Gen(rng *rand.Rand) (c20Cfg, []c20Op) {
 // ---------------------------------------------------------------------------------------
 // shrinking a failing history
 
-func c20Has(cfg c20Cfg, ops []c20Op, sig string) (bool, string) {
-	r := c20NewRun(cfg)
+type c20Shrinker struct {
+	cfg    c20Cfg
+	sig    string
+	noPace bool
+	work   int // packets sent in re-executions so far
+	execs  int
+}
+
+func (sh *c20Shrinker) spent() bool { return sh.work > 400000 || sh.execs > 1500 }
+
+func (sh *c20Shrinker) has(ops []c20Op) (bool, string) {
+	r := c20NewRun(sh.cfg)
+	r.noPace = sh.noPace
 	r.exec(ops)
+	sh.work += r.work + len(ops)
+	sh.execs++
 	for _, v := range r.viols {
-		if v.sig == sig {
+		if v.sig == sh.sig {
 			return true, v.detail
 		}
 	}
@@ -751,39 +817,38 @@ func c20Shrink(cfg c20Cfg, ops []c20Op, v c20Viol) ([]c20Op, string) {
 	}
 	ops = append([]c20Op(nil), ops...)
 	detail := v.detail
-	budget := 1500
-	for chunk := len(ops) / 2; chunk >= 1 && budget > 0; {
+	sh := &c20Shrinker{cfg: cfg, sig: v.sig, noPace: !strings.Contains(v.sig, "pacer")}
+	for chunk := max(1, len(ops)/2); !sh.spent(); {
 		removed := false
-		for i := 0; i+chunk <= len(ops) && budget > 0; {
+		for i := 0; i+chunk <= len(ops) && !sh.spent(); {
 			cand := append(append([]c20Op(nil), ops[:i]...), ops[i+chunk:]...)
-			budget--
-			if ok, d := c20Has(cfg, cand, v.sig); ok {
+			if ok, d := sh.has(cand); ok {
 				ops, detail, removed = cand, d, true
 			} else {
 				i += chunk
 			}
 		}
-		if chunk == 1 && !removed {
-			break
-		}
-		if chunk > 1 {
+		if chunk == 1 {
+			if !removed {
+				break
+			}
+		} else {
 			chunk /= 2
 		}
 	}
 	// make the numbers smaller where that keeps the failure
 	for i := range ops {
-		for _, f := range []*int64{&ops[i].A, &ops[i].B} {
-			if ops[i].K != "S" && ops[i].K != "A" {
-				continue
-			}
+		if ops[i].K != "S" && ops[i].K != "A" {
+			continue
+		}
+		for _, f := range []*int64{&ops[i].A, &ops[i].B, &ops[i].E} {
 			if ops[i].K == "A" && f == &ops[i].A {
 				continue
 			}
-			for *f > 1 && budget > 0 {
+			for *f > 0 && !sh.spent() {
 				old := *f
 				*f = old / 2
-				budget--
-				if ok, d := c20Has(cfg, ops, v.sig); ok {
+				if ok, d := sh.has(ops); ok {
 					detail = d
 				} else {
 					*f = old
@@ -1115,6 +1180,7 @@ func (r *c20PRun) exec(start int64, ops []c20POp) {
 			}
 		case "U":
 			r.budget(r.now)
+			r.trace = append(r.trace, c20Pace{t: r.now, bytes: 0, bw: r.bytesPerSec(), mds: r.mds})
 			r.p.SentPacket(r.now, protocol.ByteCount(op.A))
 			r.last = r.now
 			r.unauth++
